@@ -765,7 +765,7 @@ class Interp:
             self.gosub_depth += 1
             try:
                 self.run_main_from(self.labels[s['label']] + 1)
-                raise Inconclusive('GOSUB routine ran off the end')
+                raise _End()       # ran into the end of the program: it ends
             except _Return:
                 pass
             finally:
